@@ -407,3 +407,37 @@ func filterVariant(obls []*Obligation, variant string) []*Obligation {
 	}
 	return out
 }
+
+// verifyWriters: the declared writer set of a field is exactly the set of functions that write it
+func (e *Engine) verifyWriters(comp string) *FuncResult {
+	key := "writers:" + comp
+	res := &FuncResult{Key: key, Contract: true}
+	c := newCtx(key)
+	res.Ctx = c
+	declared := map[string]bool{}
+	for _, f := range e.cf.Writers[comp] {
+		declared[f] = true
+	}
+	actual := e.writersOf(comp)
+	for _, f := range actual {
+		goal := "false"
+		if declared[f] {
+			goal = "true"
+		}
+		c.oblige("writers", "function "+f+" writes "+comp+": it must be one of the declared writers (each carries the transition obligations)", "", nil, "true", goal)
+	}
+	for f := range declared {
+		found := false
+		for _, a := range actual {
+			if a == f {
+				found = true
+			}
+		}
+		if !found {
+			c.note("declared writer " + f + " no longer writes " + comp)
+		}
+	}
+	res.Obls = c.obls
+	res.Notes = sortedKeys(c.notes)
+	return res
+}
